@@ -1,4 +1,5 @@
 import Bptk.Proofs.PyFrag
+import Bptk.Proofs.PyDet
 /-!
 C02 — SD-DSL expressions keep the grouping of the Python expression that built them.
 
@@ -278,6 +279,20 @@ theorem C02_full_of_tableOK (T : Table) (hT : tableOK L T = true) (hS : specOK T
     simp only [hs] at this
     rw [← eval_erase C ρ (shapeOf t), beqPy_eq _ _ this]
 
+/-- Uniqueness: under the same per-run obligation, EVERY parse of the emitted text — in particular
+the one the executable parser (differentially validated against CPython's `ast.parse`) returns — is the
+tree with operands as units, so its value in any arithmetic is the unit-wise value. -/
+theorem C02_parse_unique (T : Table) (hT : tableOK L T = true) (e : E) (he : E.ok T L e = true) :
+    (∀ p, Parses (render T e) p → p = denote T e) ∧
+    (∀ p, parse (render T e) = some p → p = denote T e) ∧
+    (∀ p, Parses (render T e) p → ∀ (α : Type) (C : Carrier α),
+        eval C (fun _ => C.name "MISSING") p = value C T e) := by
+  refine ⟨fun p hp => render_parse_unique L (by decide) T hT e he p hp,
+    fun p hp => parse_render L (by decide) T hT e he p hp, ?_⟩
+  intro p hp α C
+  rw [render_parse_unique L (by decide) T hT e he p hp]
+  exact eval_denote C T e
+
 /-! ### Negation witnesses for the bare-infix templates of the pinned tree (before the repair) -/
 
 /-- With `SubtractionOperator` rendered bare (`H0-H1`), `a-(b-c)` re-parses as `(a-b)-c`: no table
@@ -302,6 +317,7 @@ example : tableOK L demoTable = true ∧ specOK demoTable = true ∧
       .node 0 [.leaf (.name "b"), .leaf (.name "c")]]]) = true := by decide +kernel
 
 #print axioms C02_full_of_tableOK
+#print axioms C02_parse_unique
 #print axioms C02_witness_bare_sub
 #print axioms render_parses
 #print axioms parse_print
